@@ -84,6 +84,27 @@ def check(ctx):
             for x in tr.events:
                 if x.kind == "SETATTR" and x.a["obj"] == ping and x.a["val"] == ("attr", CONN, "keepalive"):
                     alias_fields.add(x.a["field"])
+        # the periodic call, while CONNECTED, writes a PINGREQ on every path that completes (found from the LoopingCall's target, not
+        # from the write, so that a routine that no longer writes is a finding and not a vanished anchor)
+        for _tr0, e0 in starts[:1]:
+            _key, pfunc, _x = cat._target(e0.a["target"])
+            if pfunc is None:
+                continue
+            for tr in contexts(cat):
+                if tr.kind != "TIMER" or tr.entry.func.qual != pfunc.qual or tr.path.exit_kind() == "raise":
+                    continue
+                d = [x for x in tr.events if x.kind == "DISPATCH"]
+                if not d or d[0].a["slot"] != "CONNECTED":
+                    continue
+                wrote = False
+                for x in tr.events:
+                    if x.kind == "WRITE":
+                        how_, obj_ = written_object(x.a["data"])
+                        if obj_ is not None and "PINGREQ" in {q.split(".")[-1] for q in ty.class_of(obj_, eng)}:
+                            wrote = True
+                ctx.ob("Q2", "%s the periodic call writes a PINGREQ while CONNECTED" % cq, wrote, where="%s:%d" % (pfunc.file, pfunc.node.lineno),
+                       function=pfunc.qual, construct="%s/pingreq-missing" % pfunc.qual,
+                       msg="a path of the periodic keepalive call completes in state CONNECTED without writing a PINGREQ")
         # ---------------- Q2 / Q5 ----------------
         for tr in contexts(cat):
             for e in tr.events:
@@ -118,6 +139,14 @@ def check(ctx):
                     okt = dl is not None and all(any(y.kind == "CLOSE" for y in p.walk()) and p.exit_kind() != "raise" for p in dl.paths)
                     ctx.ob("Q2", "%s an expired deadline closes the connection on every path" % cq, okt, where=where(x), function=x.func,
                            construct="%s/deadline-target" % x.func, msg="deadline callback %s does not always close the connection" % show(x.a["target"]))
+                    if okt:
+                        # "it aborts the connection": an orderly close waits for the write buffer to drain, which a broker that has
+                        # gone silent may never let happen - the loss would not be reported and the keepalive would have detected nothing
+                        soft = [y for p in dl.paths for y in p.walk() if y.kind == "CLOSE" and y.a.get("how") != "abortConnection"]
+                        ctx.ob("Q2", "%s an expired deadline aborts the connection (no orderly close)" % cq, not soft, where=where(soft[0]) if soft else where(x),
+                               function=soft[0].func if soft else x.func, construct="%s/deadline-close-kind" % x.func,
+                               msg="the deadline callback closes with %s(): towards a broker that no longer answers the orderly close can wait "
+                                   "for ever, the loss is never reported" % (soft[0].a.get("how") if soft else ""))
         # ---------------- Q3 ----------------
         for tr in contexts(cat):
             if not (tr.kind == "NET" and tr.name == "PINGRESP" and tr.slot == "CONNECTED"):
